@@ -16,6 +16,7 @@ INVARIANT Balanced
 INVARIANT OneStartOneEnd
 INVARIANT Outcome
 INVARIANT Bounded
+INVARIANT WellFormed
 INVARIANT Publish
 INVARIANT PublishSkip
 CHECK_DEADLOCK FALSE
